@@ -41,6 +41,13 @@
                                                length inside { } [ ] ( ), LF or CRLF, with or without final line
                                                end), parse bs returns, without errors, a tree that joins to t
      C02_rendered_is_layout                    render cs t is such a layout when last_comment_ok t
+   For ARBITRARY SOURCES (not only rendered ones): the tree of an error-free source without CR is a tree of the grammar
+   and every re-layout of it parses back to it (Syntax/ParserLines.v: a new invariant of the pattern loop):
+     C02_errorfree_source_tree_wellformed_partial   utf8_valid bs, nocr bs, parse bs = Done (t, []) and comments_nonempty t
+                                               (executable: every comment has a line) imply wf_resource and
+                                               wf_utf8_resource of the joined tree
+     C02_relayout_errorfree_source_partial     ... and then parse (render cs (joined t)) joins to the joined t again, for
+                                               EVERY layout cs (premise last_comment_ok as everywhere)
    and the rendered source is a Rust str, so that C01 applies to it:
      C02_rendered_source_is_utf8               wf_utf8_resource t -> utf8_valid (render cs t) (Syntax/RenderFacts.v)
    How: the fragments nest_resource d below (RoundTripNest.v; d = nesting depth) extend sel_resource d by NESTED
@@ -119,7 +126,8 @@
    block start of each value (with an optional blank line; block start only, if all its continuation lines are
    indented), the indentation of the lines of a value after
    a line break (4-6 spaces, 8-10 in an attribute, the same for all lines of the value; the parser removes
-   it), 0-1 spaces on a blank line inside a value, blanks (spaces and line
+   it), 0-1 spaces on a blank line inside a value (the proof: any number of spaces, since the repair of finding D33
+   the parser returns "LF" for a blank line whatever spaces it carries), blanks (spaces and line
    breaks) inside the braces of a placeable; for call arguments: blanks (0-2 spaces or a line break with
    indentation) between the callee and "(", after "(", before and after every ",", around the ":" of a named
    argument and before ")", and an optional trailing "," after the last argument; for a select expression: 0-2 spaces or a line break before
@@ -140,6 +148,7 @@
 From FluentV Require Import Base.Bytes Base.Outcome Base.Utf8 Syntax.Ast.
 From FluentV Require Import Syntax.ParserModel Syntax.Render Syntax.TreeNorm Syntax.WfUtf8 Syntax.RoundTrip Syntax.RoundTripML Syntax.RoundTripSel.
 From FluentV Require Import Syntax.RoundTripNest Syntax.WfComplete Syntax.RenderFacts Syntax.D7Exact.
+From FluentV Require Import Syntax.ParserUtf8 Syntax.ParserBridge Syntax.ParserLines Syntax.ParserWf.
 
 (* "Every resource that is well-formed under the Fluent 1.0 grammar parses without errors or Junk and
    yields exactly the entries the grammar assigns to it ...  The tree does not depend on layout choices
@@ -198,6 +207,26 @@ Qed.
 Theorem C02_rendered_is_layout :
   forall d cs t, nest_resource d t = true -> last_comment_ok t = true -> nest_layout d t (render cs t).
 Proof. exact render_nest_layout. Qed.
+
+(* ... and the converse direction, for arbitrary sources: the tree the parser returns for an error-free source without CR
+   is a tree of the grammar (well-formed when joined; Syntax/ParserWf.v, ParserLines.v), so every re-layout of it
+   parses back to it: the tree of a source does not depend on its layout.  comments_nonempty: every comment has a line
+   (executable; excludes exactly the zero-line comment of finding D7). *)
+Theorem C02_errorfree_source_tree_wellformed_partial :
+  forall bs t, utf8_valid bs = true -> nocr bs = true -> parse bs = Done (t, []) -> comments_nonempty t = true ->
+  wf_resource (map join_entry t) = true /\ wf_utf8_resource (map join_entry t) = true.
+Proof.
+  intros bs t Hb Hn Hp Hc. split; [apply (parse_wf_errorfree bs t Hp Hn Hc) | apply join_utf8, (parse_utf8 bs t [] Hb Hp)].
+Qed.
+
+Theorem C02_relayout_errorfree_source_partial :
+  forall bs t cs, utf8_valid bs = true -> nocr bs = true -> parse bs = Done (t, []) -> comments_nonempty t = true ->
+  last_comment_ok (map join_entry t) = true ->
+  exists t', parse (render cs (map join_entry t)) = Done (t', []) /\ map join_entry t' = map join_entry t.
+Proof.
+  intros bs t cs Hb Hn Hp Hc Hl. destruct (C02_errorfree_source_tree_wellformed_partial bs t Hb Hn Hp Hc) as [Hw Hu].
+  apply (parse_render_wf cs (map join_entry t) Hw Hu Hl).
+Qed.
 
 (* the text that is parsed is a Rust str (the domain of property C01) *)
 Theorem C02_rendered_source_is_utf8 : forall cs t, wf_utf8_resource t = true -> utf8_valid (render cs t) = true.
